@@ -109,7 +109,7 @@ def gen(rng, n, want_reuse, with_time=False):
             a = rng.choice([x for x in range(1, 8) if x != owner])
             kind = rng.choice(["pkt", "cls", "opt", "frag", "up"])
             if kind == "pkt":
-                ev.append("pkt %d %d %d 1 %d %s" % (uid, a, rng.below(65536), rng.choice([0, 1, 2, rng.below(65536)]), hx(bytes([0xEE, 0xEF]))))
+                ev.append("pkt %d %d %d 1 %d %s" % (uid, a, rng.choice([0, 0, 1, 1, 2, 3, 65535, rng.below(65536)]), rng.choice([0, 1, 2, rng.below(65536)]), hx(bytes([0xEE, 0xEF]))))
             elif kind == "cls":
                 ev.append("cls %d %d" % (uid, a))
             elif kind == "opt":
@@ -181,8 +181,14 @@ def gen_sweep(rng, n):
     return gen(rng, n, True, with_time=True)
 
 
+# every identifier of the table in use at once (1296 sessions from three addresses), one more is refused; then traffic on the last ones
+FULL_TABLE = (["ver %d 1" % (1 + i % 3) for i in range(1297)] +
+              ["pkt 1295 %d 65535 1 0 #5a5a" % (1 + 1295 % 3), "pkt 0 1 65535 1 0 #4141", "pkt 1294 %d 65535 1 0 #5959" % (1 + 1294 % 3),
+               "sread 1295", "sread 0", "sread 1294", "cls 1295 %d" % (1 + 1295 % 3), "ver 2 1", "sread 1296"])
+
+
 def cases(tier, rng):
-    cs = [mk(CORPUS_LATE_CLOSE, 3, 0, 2, "late-close")]
+    cs = [mk(CORPUS_LATE_CLOSE, 3, 0, 2, "late-close"), mk(FULL_TABLE, 1297, 0, 1, "full-table")]
     for name, h in (("sweep-reuse", SWEEP_REUSE), ("sweep-idle", SWEEP_IDLE)):
         c = mk(h, 2, 0, 1, name)
         c["model_only"] = True
@@ -318,6 +324,7 @@ def oracle(case, impl):
                 data = bytes.fromhex(a[1][1:])
                 if not from_own(data, sent.get(s, [])):
                     out.append(("stream-injection", "session %d read bytes %s that its own peer never sent" % (s, a[1])))
+    out += frame(case, p, info)
     # no collateral termination: exactly the sessions that were not closed are still live
     if fin and fin[0] == "live":
         n = int(fin[1])
@@ -329,6 +336,41 @@ def oracle(case, impl):
                 out.append(("collateral-termination", "sessions %r are no longer live although only other sessions were closed" % lost))
             if extra:
                 out.append(("zombie", "sessions %r are still live after their close" % extra))
+    return out
+
+
+def strip_touched(s):
+    i = s.find(" touched ")
+    return s if i < 0 else s[:i]
+
+
+def agree(case, impl, model):
+    return None if strip_touched(impl) == strip_touched(model) else "session-table"
+
+
+def frame(case, p, info):
+    """the harness lists (event index, serial) for every accepted session whose table position, sequence numbers, queue length, fragment
+    size or closed flag changed during an event. A message may only alter sessions with its own identifier AND address."""
+    if "touched" not in p:
+        return []
+    i = p.index("touched")
+    n = int(p[i + 1])
+    pairs = [(int(p[i + 2 + 2 * k]), int(p[i + 3 + 2 * k])) for k in range(n)]
+    evs = list(events(case["line"]))
+    out = []
+    for ev, ser in pairs:
+        e = evs[ev]
+        k = e[0]
+        if k in ("sweep", "t"):
+            continue
+        if k in ("sq", "sread", "sclose"):
+            ok = int(e[1]) == ser
+        elif k in ("pkt", "cls", "opt", "frag", "up"):
+            ok = info.get(ser) == (int(e[1]), int(e[2]))
+        else:          # ver, down: carry no identifier; they create sessions but alter none
+            ok = False
+        if not ok:
+            out.append(("foreign-message-altered-session", "event #%d (%s) altered session %d, which has identifier/address %r" % (ev, " ".join(e)[:60], ser, info.get(ser))))
     return out
 
 
